@@ -129,8 +129,10 @@ theorem response_routed (σ : St) (h : Reach σ) :
   have := inv.up u hu o ho
   exact ⟨this, inv.map.fwd _ _ this⟩
 
-/-- MODEL-LEVEL SANITY LEMMA (not tied: the driver never runs `route`): in the model of `HttpLayer.streams` an event is
-    delivered to the stream object registered under its own id, or dropped — this is `alookup` membership. -/
+/-- `HttpLayer.streams`: an event is delivered to the stream object registered under its own id, or dropped.  By itself
+    this is `alookup` membership; what makes it a statement about mitmproxy is the tie: the driver op `L route sid` runs
+    `route` on the table built by `L make` / `L drop` and is compared with every lookup `self.streams[stream_id]` of the
+    real HttpLayer (found stream's `stream_id`, or KeyError). -/
 theorem route_own_stream {α : Type} (streams : List (Nat × α)) (sid : Nat) (s : α) (h : route streams sid = some s) :
     (sid, s) ∈ streams := alookup_mem sid s streams h
 
@@ -165,10 +167,11 @@ theorem stream_ok_invariant (c : Conn) (s sid : Nat) (d : Bytes) (fin : Bool) :
     to which stream is hyper-h2's demultiplexing).  `HttpLayer` then looks the id up in `streams`: after any sequence
     of `make_stream` / `DropStream`, the object found under an id is the `HttpStream` that was created FOR that id —
     so the events of a client stream reach exactly the HttpStream registered under its id, or nobody.
-    MODEL-LEVEL SANITY LEMMA: `applyLayerOp (.make sid)` stores `⟨sid⟩` under `sid` by definition and no driver op runs
-    `route` / `applyLayerOp` against the real `HttpLayer`; it documents the modelling of `HttpLayer.streams`, it proves
-    nothing about mitmproxy.  The client-facing half of "every flow carries … of its own stream" rests on the oracle (what
-    the peers decode per stream) and on hyper-h2's demultiplexing. -/
+    The conclusion follows from the shape of `applyLayerOp` (`.make sid` stores `⟨sid⟩` under `sid`); that the real
+    `make_stream` / `DropStream` handling has this shape is the tie: driver ops `L make` / `L drop` replay every
+    assignment to and `pop` from the real `HttpLayer.streams` and the whole table (key ↦ `stream_id` of the stored
+    HttpStream, in dict order) is compared after each.  Which frames belong to which stream on the client connection
+    is hyper-h2's demultiplexing (trusted, exercised by the peer oracle). -/
 theorem demux_own_stream (ops : List LayerOp) (sid : Nat) (s : HStream)
     (h : route (ops.foldl applyLayerOp []) sid = some s) : s.id = sid := by
   have inv : ∀ (ops : List LayerOp) (l : List (Nat × HStream)), (∀ p ∈ l, p.2.id = p.1) →
